@@ -19,7 +19,7 @@ interface Ext:
     def ext_mod(x: uint256) -> uint256: nonpayable
     def ext_pay(x: uint256) -> uint256: payable
 
-event Ev:
+event {ev}:
     x: uint256
 
 TGT: constant(address) = {tgt}
@@ -184,7 +184,7 @@ def v_stmt(s, ind, cx):
         cx.n += 1
         return [pad + f"d{cx.n}: uint256 = {E(e)}"]
     if t == "SLog":
-        return [pad + f"log Ev(x={E(s[1])})"]
+        return [pad + f"log {'EvL' if cx.in_lib else 'Ev'}(x={E(s[1])})"]
     if t == "SIf":
         out = [pad + f"if {E(s[1])} != 0:"] + v_stmt(s[2], ind + 1, cx)
         if s[3][0] != "SSkip":
@@ -214,8 +214,8 @@ def v_prog(prog, tgt):
     imports = ""
     if has_lib:
         imports = "import lib1\n" + {"NoOwn": "", "Uses": "uses: lib1\n", "Initializes": "initializes: lib1\n"}[prog["owns"]]
-    main = [COMMON.format(tgt=tgt), HEADER.format(imports=imports)]
-    lib = [COMMON.format(tgt=tgt), LIB_HEADER]
+    main = [COMMON.format(tgt=tgt, ev="Ev"), HEADER.format(imports=imports)]
+    lib = [COMMON.format(tgt=tgt, ev="EvL"), LIB_HEADER]
     cm, cl = PCtx(prog, False), PCtx(prog, True)
     for i, f in enumerate(funs):
         if f["vis"] == "Ctor":
